@@ -8,6 +8,9 @@ import (
 	"fmt"
 	"io/ioutil"
 	"os"
+	"runtime"
+	"sync/atomic"
+	"time"
 
 	"pikeverif/cases"
 	"pikeverif/world"
@@ -89,6 +92,24 @@ func cmdCases(args []string) {
 	_ = fs.Parse(args)
 	raws := readLines(*in)
 	w := world.New()
+	// watchdog: requests are in flight and none has completed for 90 s -> say where they are and give up (exit 3)
+	go func() {
+		last, since := int64(-1), time.Now()
+		for {
+			time.Sleep(5 * time.Second)
+			c := atomic.LoadInt64(&world.Completed)
+			if c != last || atomic.LoadInt64(&world.InFlight) == 0 {
+				last, since = c, time.Now()
+				continue
+			}
+			if time.Since(since) > 90*time.Second {
+				buf := make([]byte, 4<<20)
+				buf = buf[:runtime.Stack(buf, true)]
+				fmt.Fprintf(os.Stderr, "HANG: %d request(s) in flight, none completed for 90 s\n\n%s\n", atomic.LoadInt64(&world.InFlight), buf)
+				os.Exit(3)
+			}
+		}
+	}()
 	var obs []interface{}
 	var err error
 	switch *kind {
